@@ -101,6 +101,12 @@ Theorem C05_source_fixed_status_is_the_models : forall k sx v cnt p, k < 0 -> is
 Proof. exact fixed_status_model. Qed.
 Print Assumptions C05_source_fixed_status_is_the_models.
 
+(* ... and the data block then holds exactly the elements of the model's object, in order *)
+Theorem C05_source_fixed_content_is_the_models : forall k sx v cnt p ob s', k < 0 -> is_arr v = false -> read_objects false None v cnt p sx = Ok (ob, s') ->
+  concat (oelems ob) = firstn (Z.to_nat (usize v * cnt)) sx /\ oty ob = v.
+Proof. exact fixed_content_model. Qed.
+Print Assumptions C05_source_fixed_content_is_the_models.
+
 (* string and binary elements: the outcome is given by arr_spec (a functional description with the allocation oracle:
    pointer array, optional byte-size header, then per element a length - 32-bit or 7-bit packed -, a fresh block and the
    bytes); whatever fails half-way - a length that cannot be read, a negative length, a string of INT_MAX bytes, an
